@@ -70,6 +70,8 @@ def ort_session(model_proto):
     so = ort.SessionOptions()
     so.graph_optimization_level = ort.GraphOptimizationLevel.ORT_DISABLE_ALL
     so.log_severity_level = 4
+    so.intra_op_num_threads = 1
+    so.inter_op_num_threads = 1
     return ort.InferenceSession(model_proto.SerializeToString(), so, providers=["CPUExecutionProvider"])
 
 
@@ -339,7 +341,7 @@ def ort_run_subprocess(model_proto, feeds, timeout=30):
     code = ("import pickle,sys\n"
             "import onnxruntime as ort\n"
             "m,feeds=pickle.load(sys.stdin.buffer)\n"
-            "so=ort.SessionOptions(); so.graph_optimization_level=ort.GraphOptimizationLevel.ORT_DISABLE_ALL; so.log_severity_level=4\n"
+            "so=ort.SessionOptions(); so.graph_optimization_level=ort.GraphOptimizationLevel.ORT_DISABLE_ALL; so.log_severity_level=4; so.intra_op_num_threads=1; so.inter_op_num_threads=1\n"
             "try:\n"
             "    s=ort.InferenceSession(m,so,providers=['CPUExecutionProvider']); r=('ok',s.run(None,feeds))\n"
             "except Exception as e:\n"
@@ -378,6 +380,26 @@ def for_bound_not_live(source, fname, globals_truth):
             if isinstance(node, ast.For):
                 li = an.live_in(node)
                 if li is not None and not (analysis._used_vars(node.iter) <= li):
+                    return True
+    except Exception:  # noqa: BLE001
+        return False
+    return False
+
+
+def if_test_parameter_shadows_global(source, fname, module_names):
+    """An `if p:` whose test is a parameter of the function (never assigned in the body) while the module also has a
+    global called p: AstAnalyzer._compute_constant_if_conditions only excludes names assigned in the body, so the
+    test is evaluated at decoration time on the module-level object and one branch is dropped."""
+    import ast
+    try:
+        tree = ast.parse(source)
+        f_ast = [n for n in tree.body if isinstance(n, ast.FunctionDef) and n.name == fname][0]
+        params = {a.arg for a in f_ast.args.posonlyargs + f_ast.args.args + f_ast.args.kwonlyargs}
+        stored = {n.id for n in ast.walk(f_ast) if isinstance(n, ast.Name) and isinstance(n.ctx, ast.Store)}
+        for node in ast.walk(f_ast):
+            if isinstance(node, ast.If) and isinstance(node.test, ast.Name):
+                v = node.test.id
+                if v in params and v in module_names and v not in stored:
                     return True
     except Exception:  # noqa: BLE001
         return False
@@ -432,6 +454,8 @@ class OrtSessionCache:
                     me.misses += 1
                     so = ort.SessionOptions()
                     so.log_severity_level = 4
+                    so.intra_op_num_threads = 1
+                    so.inter_op_num_threads = 1
                     s = orig(key, so, providers=list(providers) if providers else ["CPUExecutionProvider"], **kw)
                     if len(cache) < me.limit:
                         cache[key] = s
@@ -491,7 +515,7 @@ class OrtWorker:
         "while True:\n"
         "    n=struct.unpack('<Q',rd(8))[0]\n"
         "    m,feeds=pickle.loads(rd(n))\n"
-        "    so=ort.SessionOptions(); so.graph_optimization_level=ort.GraphOptimizationLevel.ORT_DISABLE_ALL; so.log_severity_level=4\n"
+        "    so=ort.SessionOptions(); so.graph_optimization_level=ort.GraphOptimizationLevel.ORT_DISABLE_ALL; so.log_severity_level=4; so.intra_op_num_threads=1; so.inter_op_num_threads=1\n"
         "    try:\n"
         "        s=ort.InferenceSession(m,so,providers=['CPUExecutionProvider']); r=('ok',s.run(None,feeds))\n"
         "    except Exception as e:\n"
